@@ -3,7 +3,8 @@
    statements are C05 (tiling), C06/C07 (values and masks reach the loaded
    groups), C02 (every pre-terminal is emitted), C04 (expansion = denote). *)
 From Coq Require Import List Arith Bool NArith Sorting.Permutation.
-From Pcfg Require Import ProbAlg Expand ExpandProofs EndToEnd Next NextSpec NextProofs.
+From Coq Require Import QArith.
+From Pcfg Require Import ProbAlg Expand ExpandProofs EndToEnd Next NextSpec NextProofs QProb QSum.
 Import ListNotations.
 
 (* storing a word lower-cased with its U/L mask loses nothing on the property's
@@ -38,6 +39,21 @@ Proof.
   eapply Permutation_in; [apply Permutation_sym; exact P|exact Hi].
 Qed.
 
+(* "the probabilities of all emitted guesses sum to 1", over exact rationals:
+   if the lines of every terminal file used sum to 1 (one line per value:
+   var_mass) and the base structures kept sum to s (s = 1 without Markov, i.e.
+   coverage 1; s = 1 - P(M) rescaled to 1 by skip_brute, see C14), the guesses
+   of a complete run carry total probability s *)
+Theorem C03_sum_Q :
+  forall (rs : Qruleset) (sizes : list (list nat)),
+  (forall b, In b (bases rs) -> forall v, In v (brepl b) -> (var_mass rs sizes v == 1)%Q) ->
+  forall (s : Q) pop, wf rs -> pop_ok_okb pop ->
+  (Qsum (map bprob (bases rs)) == s)%Q ->
+  (Qsum (map (fun it : Qitem => (iprob it * count_it sizes it)%Q)
+             (emitted (run pop rs (total rs) (start rs)))) == s)%Q.
+Proof. exact QSum_emitted. Qed.
+
 Print Assumptions C03_mask_roundtrip.
+Print Assumptions C03_sum_Q.
 Print Assumptions C03_password_in_expansion.
 Print Assumptions C03_every_preterminal_is_emitted.
